@@ -66,11 +66,11 @@ Proof.
   split; [exact E|]. unfold stats_duration. rewrite E. destruct (spec_total m rows). reflexivity.
 Qed.
 
-Lemma report_duration_line m cfg rows fs rep :
-  report_struct_rows m cfg rows fs = ROk rep -> rp_duration rep = stats_duration m rows.
+Lemma report_duration_line w m cfg rows fs rep :
+  report_struct_rows_with w m cfg rows fs = ROk rep -> rp_duration rep = stats_duration m rows.
 Proof.
-  unfold report_struct_rows. destruct (negb (c_running cfg)); [discriminate|].
-  destruct (f_comment fs); try discriminate; destruct (steps_loop m cfg fs rows); try discriminate;
+  unfold report_struct_rows_with, report_struct_rows_gen. destruct (negb (c_running cfg)); [discriminate|].
+  destruct (f_comment fs); try discriminate; destruct (steps_loop_gen w _ m cfg fs rows); try discriminate;
     intros H; injection H as <-; reflexivity.
 Qed.
 
@@ -493,9 +493,10 @@ Proof.
     + intros y [<-|Hy]; [exact Ea|apply IH; exact Hy].
 Qed.
 
-Theorem previous_spec cfg fs : previous_builddir cfg fs = spec_previous cfg fs.
+(* report.c previous_builddir takes the greatest other name *)
+Theorem previous_is_by_name cfg fs : previous_builddir cfg fs = previous_by_name cfg fs.
 Proof.
-  unfold previous_builddir, spec_previous. destruct (f_root fs) as [ents|]; [|reflexivity].
+  unfold previous_builddir, previous_by_name. destruct (f_root fs) as [ents|]; [|reflexivity].
   unfold invocation_find_all.
   set (L0 := invocation_read (c_robsddir cfg) (c_keepdir cfg) ents).
   set (p := fun q => negb (beq q (c_builddir cfg))).
@@ -520,12 +521,12 @@ Proof.
   - reflexivity.
 Qed.
 
-Theorem report_sizes_spec m cfg fs :
+Theorem report_sizes_by_name m cfg fs :
   (forall cur, f_rel fs = Some cur -> Forall (fun f => (0 <= rf_size f)%Z) cur) ->
-  report_sizes m cfg fs = spec_sizes m cfg fs.
+  report_sizes m cfg fs = sizes_by_name m cfg fs.
 Proof.
-  intros H. unfold report_sizes, spec_sizes. rewrite previous_spec.
-  destruct m; try reflexivity. destruct (spec_previous cfg fs) as [prev|]; [|reflexivity].
+  intros H. unfold report_sizes, sizes_by_name, sizes_against. rewrite previous_is_by_name.
+  destruct m; try reflexivity. destruct (previous_by_name cfg fs) as [prev|]; [|reflexivity].
   destruct (f_rel fs) as [cur|] eqn:E; [|reflexivity]. apply size_lines_spec. apply H. reflexivity.
 Qed.
 
@@ -536,7 +537,7 @@ Theorem previous_is_greatest cfg fs ents p :
   In p (invocation_read (c_robsddir cfg) (c_keepdir cfg) ents) /\ p <> c_builddir cfg /\
   forall q, In q (invocation_read (c_robsddir cfg) (c_keepdir cfg) ents) -> q <> c_builddir cfg -> cmp_le q p.
 Proof.
-  intros Er. rewrite previous_spec. unfold spec_previous. rewrite Er. intros E.
+  intros Er. rewrite previous_is_by_name. unfold previous_by_name. rewrite Er. intros E.
   pose proof (fold_max_spec (filter (fun q => negb (beq q (c_builddir cfg)))
                 (invocation_read (c_robsddir cfg) (c_keepdir cfg) ents)) None) as Hm.
   rewrite E in Hm. destruct Hm as [[Hin|Hin] [Hall _]]; [|discriminate Hin].
@@ -548,16 +549,16 @@ Qed.
 
 (* ---- the oracles accept the model's own output ----------------------------------------------------------- *)
 
-Theorem model_passes_duration_oracles x rows rep :
+Theorem model_passes_duration_oracles w x rows rep :
   rows_of x = Some rows ->
-  report_struct_rows (x_mode x) (cfg_of x) rows (files_of x) = ROk rep ->
+  report_struct_rows_with w (x_mode x) (cfg_of x) rows (files_of x) = ROk rep ->
   spec_ok_total x (rp_duration rep) = true /\
   (forall k r, nth_error (filter (spec_shown (x_mode x) (cfg_of x) (files_of x)) rows) k = Some r ->
      spec_ok_step_duration x k (step_duration r) = true) /\
   spec_ok_shell x (render_Z (sh_total (x_mode x) rows)) = true.
 Proof.
   intros E H. split; [|split].
-  - unfold spec_ok_total. rewrite E. rewrite (report_duration_line _ _ _ _ _ H).
+  - unfold spec_ok_total. rewrite E. rewrite (report_duration_line _ _ _ _ _ _ H).
     destruct (total_spec (x_mode x) rows) as [_ ->].
     destruct (spec_total (x_mode x) rows) as [d delta]. cbn [fst snd].
     destruct (in_range d && delta_in_range delta) eqn:Er; [|reflexivity].
